@@ -16,7 +16,7 @@ BUDGET = {"quick": 50, "thorough": 900}
 RULE = (
     "1-8 messages with due time T = now + d, d from {-1 h .. -1 ms, 0, 1 ms .. 999 ms, 1-30 s, 1 h, 1 y}, created through "
     "Job(deferred_until=...) or through next_execution_time (the shape of a retry / reschedule), on one queue with 1-3 "
-    "priorities; random clock phase inside the second; a NORMAL consumer with free capacity starts before or after the enqueues "
+    "priorities (20%: a far-future message first, sooner-due ones enqueued 1-4 s later while the consumer idles); random clock phase inside the second; a NORMAL consumer with free capacity starts before or after the enqueues "
     "at a seeded polling phase and acks what it gets; optionally a DELAYED-category observer takes and rejects messages. "
     "Oracle: (i) no message leaves the broker's waiting/delayed storage towards a NORMAL consumer earlier than T - 1 ms (take "
     "instant read from the broker side); (ii) 1 ms before T the broker-side place is 'delayed' only; (iii) delivery within L "
@@ -32,6 +32,20 @@ LATE = {"mem": 2_500_000, "redis": 3_000_000, "rabbit": 1_000_000}
 
 
 def gen(rng, broker, tier):
+    if rng.random() < 0.2:
+        # an idle consumer which has already seen a later-due message gets a sooner-due one afterwards (nothing immediate
+        # in between that would make it look again)
+        far = rng.choice([12_000_000, 30_000_000, 3_600_000_000, 31_536_000_000_000])
+        if broker == "mem":
+            far = max(far, 30_000_000)
+        msgs = [{"id": "m0", "delay_us": far, "via": rng.choice(["job", "params"]), "prio": 5, "at_us": 0}]
+        for i in range(1, rng.randint(2, 4)):
+            msgs.append({"id": f"m{i}", "delay_us": rng.choice([1000, 300_000, 999_000, 1_500_000, 3_000_000]),
+                         "via": rng.choice(["job", "params"]), "prio": 5, "at_us": rng.randint(1_200_000, 4_000_000)})
+        return {"msgs": msgs, "consumer_start_us": rng.choice([0, 0, 300_000]), "observer": False, "observer_at_us": 0, "patient": True,
+                "knobs": {"step_cost": rng.choice([0, 0, 1, "rand"]),
+                          "net": {"lat_lo": 50, "lat_hi": rng.choice([300, 3000]), "frag_p": rng.choice([0, 0.1])},
+                          "mem_update_delayed": 1.0}}
     n = rng.randint(1, 8)
     prios = rng.choice([[5], [5], [0, 5, 9]])
     cap = 12_000_000 if broker == "mem" else 30_000_000
@@ -45,7 +59,7 @@ def gen(rng, broker, tier):
         msgs.append({"id": f"m{i}", "delay_us": d, "via": rng.choice(["job", "params"]), "prio": rng.choice(prios),
                      "at_us": rng.choice([0, 0, rng.randint(0, 2_000_000)])})
     return {"msgs": msgs, "consumer_start_us": rng.choice([0, 0, rng.randint(0, 3_000_000), rng.randint(0, 15_000_000)]),
-            "observer": rng.random() < 0.25, "observer_at_us": rng.randint(0, 3_000_000),
+            "observer": rng.random() < 0.25, "observer_at_us": rng.randint(0, 3_000_000), "patient": rng.random() < 0.5,
             "knobs": {"step_cost": rng.choice([0, 0, 1, "rand"]),
                       "net": {"lat_lo": 50, "lat_hi": rng.choice([300, 3000]), "frag_p": rng.choice([0, 0.1])},
                       "mem_update_delayed": 1.0}}
@@ -112,7 +126,10 @@ async def _main(sim, sc, out):
         await cons.start()
         listen_from[0] = sim.clock.us
         while sim.clock.us < horizon:
-            res = await consume_with_timeout(cons, min(2.0, max(0.01, (horizon - sim.clock.us) / 1e6)))
+            # a worker calls consume() once and waits; re-entering it every 2 s (the other half of the runs) would hide
+            # anything the consumer only does on entry
+            left = max(0.01, (horizon - sim.clock.us) / 1e6)
+            res = await consume_with_timeout(cons, left if sc.get("patient", False) else min(2.0, left))
             if res is None:
                 await cons.finish()
                 cons = mb.get_consumer("q", None, 100)
